@@ -1,6 +1,7 @@
 import DoltVerif.Gen.ManifestSteps
 import DoltVerif.Model.ManOrder
 import DoltVerif.Model.ManFs
+import DoltVerif.Model.ManText
 /-! Tie (C05): the step orders of `updateWithChecker` and of the grace prune, and the manifest text layout, as
 regenerated from the Go source. -/
 namespace DoltVerif.Tie.ManifestSteps
@@ -87,6 +88,28 @@ theorem pruner_unlink_guard :
 theorem legacy_prune_takes_no_manifest_lock :
     Gen.ManifestSteps.ftp_PruneTableFiles.contains "call:file.Remove" = true
     ∧ Gen.ManifestSteps.ftp_PruneTableFiles.any (fun e => e == "call:tryFileLock" || e == "call:lock" || e == "call:locker.LockManifest") = false := by
+  decide
+
+/-- the text model `Model/ManText.lean` uses the source's field order, separator, version, prefix length and slice
+positions -/
+theorem text_model :
+    Gen.ManifestSteps.writeManifestFields = ManText.headFieldNames
+    ∧ Gen.ManifestSteps.manifestSep.toList = [ManText.sep]
+    ∧ Gen.ManifestSteps.StorageVersion.toList = ManText.storageVersion
+    ∧ Gen.ManifestSteps.prefixLen = ManText.prefixLen
+    ∧ Gen.ManifestSteps.parseV5Slices.lookup "nbfVers" = some "slices[0]"
+    ∧ Gen.ManifestSteps.parseV5Slices.lookup "lock" = some "slices[1]"
+    ∧ Gen.ManifestSteps.parseV5Slices.lookup "root" = some "slices[2]"
+    ∧ Gen.ManifestSteps.parseV5Slices.lookup "gcGen" = some "slices[3]"
+    ∧ Gen.ManifestSteps.parseV5Slices.lookup "specs" = some "slices[prefixLen-1:]" := by decide
+
+/-- the journal manifest's `Update` (the model's journal writer): the same `updateWithChecker`, no `tryFileLock` per call,
+and a checker that compares gcGen only — no `checkNewSpecsPresent` -/
+theorem journal_update_shape :
+    Gen.ManifestSteps.journalManifestUpdate.contains "call:updateWithChecker" = true
+    ∧ Gen.ManifestSteps.journalManifestUpdate.contains "call:tryFileLock" = false
+    ∧ Gen.ManifestSteps.journalManifestUpdate.contains "closure:if:contents.gcGen != upstream.gcGen" = true
+    ∧ Gen.ManifestSteps.journalManifestUpdate.any (fun e => e == "closure:call:checkNewSpecsPresent" || e == "call:checkNewSpecsPresent") = false := by
   decide
 
 end DoltVerif.Tie.ManifestSteps
